@@ -582,3 +582,84 @@ def device_programs():
     ]
     progs.append(h)
     return progs
+
+
+NAN = -888888
+
+
+def round2_programs(dev):
+    """Cases added after the second round of seeded changes."""
+    progs = []
+    P, T, Sx = 0, 1, 2
+
+    def prog(name, lws, ops, **kw):
+        fl = kw.pop("flags", {"comp": True, "norm": False})
+        h = _hdr(f"round2/{name}", dev, lws, flags=fl, **kw)
+        h["ops"] = ops
+        progs.append(h)
+
+    # auto_split off with zero volumes in the middle of a column group (both devices must agree, history must stay)
+    lw = base_labware
+    prog("nosplit-zeros", lw(), [
+        {"op": "add", "lw": P, "wells": L([(0, 1)]), "vols": S(1), "label": "before"},
+        {"op": "transfer", "src": T, "sw": L([(0, 0), (1, 0), (2, 0), (3, 0)]), "dst": P, "dw": L([(0, 1), (1, 1), (2, 1), (0, 2)]),
+         "vols": L([2, 0, 3, 4]), "label": "zeros inside", "wash": 1, "pby": "destination"},
+        {"op": "transfer", "src": T, "sw": L([(0, 0), (1, 0)]), "dst": P, "dw": L([(0, 1), (1, 1)]), "vols": L([0, 0]), "label": "moves nothing", "wash": 1},
+        {"op": "transfer", "src": P, "sw": L([(0, 1), (1, 1), (2, 1)]), "dst": P, "dw": L([(0, 3), (1, 3), (2, 3)]), "vols": L([1, 0, 2]), "label": "within", "wash": "reuse"},
+    ], autosplit=False, wlmax=30, flags={"comp": False, "norm": False, "fullhist": True})
+    # a NaN volume is an invalid argument: rejected, nothing changes (and nothing is poisoned for later steps)
+    prog("nan-volumes", lw(), [
+        {"op": "dispense", "lw": P, "wells": L([(0, 1)]), "vols": S(NAN), "label": None},
+        {"op": "aspirate", "lw": P, "wells": L([(0, 0), (1, 1)]), "vols": L([1, NAN]), "label": None},
+        {"op": "add", "lw": P, "wells": L([(0, 1)]), "vols": S(NAN), "label": None},
+        {"op": "remove", "lw": T, "wells": L([(0, 0)]), "vols": S(NAN), "label": None},
+        {"op": "dispense", "lw": P, "wells": L([(0, 1)]), "vols": S(40), "label": "would overflow a poisoned well"},
+        {"op": "transfer", "src": T, "sw": L([(0, 0)]), "dst": P, "dw": L([(0, 1)]), "vols": S(NAN), "label": "nan transfer", "wash": 1},
+    ], flags={"comp": False, "norm": False})
+    # a multi-well dispense with compositions that overflows in a later well
+    prog("overflow-midway-with-compositions", lw(), [
+        {"op": "dispense", "lw": P, "wells": L([(0, 0), (2, 3), (1, 1)]), "vols": L([5, 20, 3]), "label": "second overflows",
+         "comps": [{"water": (1, 1)}, {"water": (1, 1)}, {"water": (1, 1)}]},
+        {"op": "transfer", "src": P, "sw": L([(0, 0)]), "dst": P, "dw": L([(1, 0)]), "vols": S(4), "label": "carry on", "wash": 1},
+        {"op": "add", "lw": P, "wells": L([(1, 1), (0, 0), (2, 3)]), "vols": L([2, 2, 19]), "label": "third overflows",
+         "comps": [{"acid": (1, 1)}, {"acid": (1, 2), "water": (1, 2)}, {"acid": (1, 1)}]},
+        {"op": "transfer", "src": P, "sw": L([(0, 0), (1, 1)]), "dst": Sx, "dw": L([(0, 1), (0, 3)]), "vols": L([3, 1]), "label": "after", "wash": 1},
+    ])
+    # a trough read through one virtual row, refilled through another, read again through the first
+    prog("trough-rows-alias-composition", lw(), [
+        {"op": "transfer", "src": T, "sw": L([(0, 0)]), "dst": P, "dw": L([(0, 1)]), "vols": S(3), "label": "read via A", "wash": 1},
+        {"op": "dispense", "lw": T, "wells": L([(2, 0)]), "vols": S(10), "label": "other liquid via C", "comps": [{"dye": (1, 1)}]},
+        {"op": "transfer", "src": T, "sw": L([(0, 0)]), "dst": P, "dw": L([(1, 1)]), "vols": S(6), "label": "read via A again", "wash": 1},
+        {"op": "transfer", "src": P, "sw": L([(0, 0)]), "dst": T, "dw": L([(3, 1)]), "vols": S(2), "label": "into column 2 via D", "wash": 1},
+        {"op": "distribute", "src": T, "col": 1, "dst": P, "dw": L([(2, 0), (2, 1)]), "vol": 2, "label": "column 2 out"},
+        {"op": "transfer", "src": T, "sw": L([(1, 1)]), "dst": Sx, "dw": L([(0, 1)]), "vols": S(3), "label": "via B", "wash": 1},
+    ], wlmax=30)
+    # liquid of unknown origin (bare dispense into an empty well) mixed with tracked liquid
+    prog("unknown-liquid", lw(), [
+        {"op": "dispense", "lw": P, "wells": L([(1, 0), (2, 2)]), "vols": L([4, 6]), "label": "unknown"},
+        {"op": "transfer", "src": P, "sw": L([(0, 0)]), "dst": P, "dw": L([(1, 0)]), "vols": S(4), "label": "known into unknown", "wash": 1},
+        {"op": "transfer", "src": P, "sw": L([(2, 2)]), "dst": P, "dw": L([(2, 3)]), "vols": S(3), "label": "unknown into known", "wash": 1},
+        {"op": "transfer", "src": P, "sw": L([(1, 0)]), "dst": Sx, "dw": L([(0, 1)]), "vols": S(5), "label": "mixture on", "wash": 1},
+        {"op": "distribute", "src": T, "col": 0, "dst": P, "dw": L([(2, 2), (1, 0)]), "vol": 2, "label": "top up"},
+    ], wlmax=30)
+    # a plate and a trough of the same format in one worklist (numbering must not be shared between them)
+    same = [gen.mk_plate("plate43", 4, 3, 0, 40, [10, 0, 0, 5, 0, 0, 0, 0, 0, 0, 0, 8]), gen.mk_trough("trough43", 4, 3, 1, 90, [60, 50, 0]),
+            gen.mk_plate("strip", 1, 5, 1, 20, [5, 0, 10, 0, 0], names=["a", None, "b", None, None])]
+    for first in ("trough", "plate"):
+        t1 = {"op": "transfer", "src": 1, "sw": L([(1, 0), (3, 1), (2, 0)]), "dst": 0, "dw": L([(1, 1), (3, 2), (2, 0)]), "vols": L([2, 3, 4]), "label": "t->p", "wash": 1}
+        t2 = {"op": "transfer", "src": 0, "sw": L([(0, 0), (3, 0)]), "dst": 0, "dw": L([(2, 2), (1, 2)]), "vols": L([2, 3]), "label": "p->p", "wash": 1}
+        d1 = {"op": "distribute", "src": 1, "col": 1, "dst": 0, "dw": L([(0, 1), (3, 1), (2, 2)]), "vol": 2, "label": "dist"}
+        a1 = {"op": "aspirate", "lw": 1, "wells": L([(2, 1), (0, 0)]), "vols": L([1, 2]), "label": None}
+        ops = [t1, t2, d1, a1] if first == "trough" else [t2, t1, a1, d1]
+        prog(f"same-format-{first}-first", [dict(x) for x in same], ops, wlmax=30)
+    # two labware constructed from one and the same initial-volume array
+    shared = [dict(gen.mk_plate("plateA", 2, 3, 0, 50, [10, 10, 10, 10, 10, 10]), share="tpl"),
+              dict(gen.mk_plate("plateB", 2, 3, 0, 50, [10, 10, 10, 10, 10, 10]), share="tpl"),
+              gen.mk_trough("trough", 2, 1, 0, 90, [60])]
+    prog("shared-template-array", shared, [
+        {"op": "transfer", "src": 0, "sw": L([(0, 0)]), "dst": 1, "dw": L([(0, 0)]), "vols": S(8), "label": "A->B", "wash": 1},
+        {"op": "transfer", "src": 0, "sw": L([(1, 0)]), "dst": 1, "dw": L([(0, 0)]), "vols": S(8), "label": "A->B again", "wash": 1},
+        {"op": "add", "lw": 0, "wells": L([(1, 2)]), "vols": S(5), "label": "only A"},
+        {"op": "aspirate", "lw": 1, "wells": L([(1, 1)]), "vols": S(3), "label": "only B"},
+    ], wlmax=30, flags={"comp": False, "norm": False})
+    return progs
